@@ -94,6 +94,33 @@ def run_config(chk, tier, cfgname):
         chk.inst("assume_init-registers-once", fn, ok,
                  detail="assume_init must set the live flag and link the block exactly once on every normal path")
     typestate.apply(chk, "link-counts-once", "link", aspects=("credits", "credits-over", "credits-under", "safety"))
+    # who may complete a builder. `assume_init` is an unsafe promise that everything is initialised; a caller is either
+    # unsafe itself (the promise is passed on to its caller) or one of the safe completers whose initialisation argument
+    # is decided by a rule of its own (write: value-moved-into-block; write_header; copy_slice: length check;
+    # write_slice_with: the slice-builder loop rules) - or a private helper reachable only through them. Any other safe
+    # caller is a new way to complete a builder whose initialisation nobody has argued.
+    from gcv.props import common
+    SAFE_COMPLETERS = {"gc::GcBuilder::write", "slice::GcSliceWithHeaderBuilder::write_header",
+                       "slice::GcSliceWithHeaderSliceBuilder::copy_slice", "slice::GcSliceWithHeaderSliceBuilder::write_slice_with"}
+    n_ai = 0
+    for f in prog.f["fns"]:
+        if not (f["n"].endswith("::assume_init") and f.get("unsafe") and f["n"].startswith(tuple(rules_builder.BUILDER_TYPES))):
+            continue
+        for e in prog.callers_of(f["n"]):
+            caller = prog.fn_of_closure(e.caller)
+            cf = (prog.fn_n.get(caller) or [{}])[0]
+            n_ai += 1
+            ok = bool(cf.get("unsafe")) or caller in SAFE_COMPLETERS
+            esc = None
+            if not ok:
+                allowed = SAFE_COMPLETERS | {x["n"] for x in prog.f["fns"] if x.get("unsafe")}
+                esc = common.escapes(prog, caller, allowed)
+                ok = esc is None and bool(list(prog.callers_of(caller)))
+            chk.inst("assume_init-callers", "%s<-%s" % (f["n"], caller), ok,
+                     detail="safe function `%s` completes a builder through `%s`, and no rule decides that everything it "
+                            "promises to be initialised is: the reviewed safe completers are %s" % (caller, f["n"], sorted(SAFE_COMPLETERS)),
+                     loc="%s:%s" % (e.file, e.line), sample={"assume_init": f["n"], "caller": caller, "caller_unsafe": bool(cf.get("unsafe"))})
+    chk.floor("assume_init-call-sites", n_ai, 5)
     rules_builder.value_moved_into_block(chk, prog)
     rules_builder.block_exposed_only_after_disarm(chk, prog)
     rules_builder.pointer_range_loops(chk, prog)
